@@ -992,7 +992,15 @@ pub fn c19_query(pool: &PhrasePool, rng: &mut Rng) -> String {
         }
     };
     let dec = |rng: &mut Rng| -> String {
-        match rng.below(4) {
+        match rng.below(7) {
+            // very small values and long fractions (denominators of 20..60 digits)
+            // (half of them with a digit count next to where 64- and 128-bit integers end: 10^19, 10^38)
+            4 => format!("{}e-{}", rng.range(1, 99), if rng.chance(1, 2) { *rng.pick(&[17usize, 18, 19, 20, 36, 37, 38, 39, 40]) } else { rng.range(1, 60) }),
+            5 => {
+                let len = if rng.chance(1, 2) { *rng.pick(&[18usize, 19, 20, 37, 38, 39, 40]) } else { rng.range(20, 60) };
+                format!("0.{}", (0..len).map(|_| char::from(b'0' + rng.below(10) as u8)).collect::<String>())
+            }
+            6 => format!("{}.{} + {}e-{}", rng.range(0, 999999999), rng.range(0, 9), rng.range(1, 9), if rng.chance(1, 2) { *rng.pick(&[19usize, 20, 37, 38, 39]) } else { rng.range(20, 50) }),
             0 => format!("{}.{}", rng.range(0, 999), rng.range(0, 999999)),
             1 => format!("0.{}{}", "0".repeat(rng.range(0, 20)), rng.range(1, 999)),
             2 => format!("{}.5", rng.range(0, 50)),
@@ -1014,7 +1022,7 @@ pub fn c19_query(pool: &PhrasePool, rng: &mut Rng) -> String {
             _ => format!("1 / {}", rng.range(2, 13)),
         }
     };
-    match rng.below(29) {
+    match rng.below(31) {
         20 | 21 => format!("{} {}", *rng.pick(&["1", "0.5", "0.25", "0.125", "0.2", "2", "1.0", "10", "0.1", "1.5", "0.01", "3"]), plural_unit(rng)),
         22 => format!("{} {} to {}", *rng.pick(&["1", "10", "100", "5", "0.5"]), plural_unit(rng), plural_unit(rng)),
         23 => format!("({})({})", small(rng), small(rng)),
@@ -1053,7 +1061,7 @@ pub fn c19_query(pool: &PhrasePool, rng: &mut Rng) -> String {
             t
         }
         0 => int(rng),
-        1 => dec(rng),
+        1 | 29 | 30 => dec(rng),
         2 => format!("{} / {}", int(rng), rng.range(1, 999)),
         3 => format!("1 / {}", *rng.pick(&[3usize, 7, 9, 11, 13, 17, 6, 12, 81, 998001])),
         4 => format!("{}{}", int(rng), unit(rng)),
